@@ -43,6 +43,15 @@ def run(pid, tier, seed, jobs=None, only=None):
         kinds = [k for k in KINDS[pid] if not only or k in only]
         specs = ST.specs_for(kinds, tier)
         return R.run_check(pid, tier, seed, specs, jobs=jobs)
+    if pid == 'C06':
+        # exits from an arbitrary Inv book + preservation of Inv by every request kind (reduced match shapes: Inv does not depend on the mechanism)
+        specs = ST.specs_for([k for k in FUND_MOVERS if k != 'ExecuteMatch'], tier)
+        for s_ in ST.specs_for(['ExecuteMatch'], tier, funds_variants=False):
+            mk = s_.get('markers')
+            if s_['ask'] == 'Pending' or (mk and (all(f for _, f in mk) or not any(f for _, f in mk))):
+                specs.append(s_)
+        specs = [s_ for s_ in specs if not only or s_['kind'] in only]
+        return R.run_check(pid, tier, seed, specs, jobs=jobs)
     if pid == 'C11':
         specs = [s for s in specs_c11(tier) if not only or s['kind'] in only]
         return R.run_check(pid, tier, seed, specs, jobs=jobs)
